@@ -50,6 +50,22 @@ pub fn term_universe(quick: bool) -> Vec<T> {
             }
         }
     }
+    // an Option field of a compound struct: Some(_) and None are one Rust type
+    for x in small.iter().take(4) {
+        u.push(T::Cmp(Tag::Holder, vec![T::Cmp(Tag::OptSome, vec![x.clone()]), T::I(1)]));
+        u.push(T::Cmp(Tag::Holder, vec![T::Cmp(Tag::OptNone, vec![]), x.clone()]));
+    }
+    if !quick {
+        // length-4 lists against their improper / shorter look-alikes
+        for x in small.iter().take(3) {
+            for y in small.iter().take(3) {
+                u.push(T::list(vec![x.clone(), y.clone(), x.clone(), y.clone()]));
+                u.push(T::improper(vec![x.clone(), y.clone(), x.clone()], y.clone()));
+                u.push(T::list(vec![x.clone(), T::cons(y.clone(), x.clone())]));
+                u.push(T::cons(T::list(vec![x.clone(), y.clone()]), T::list(vec![x.clone()])));
+            }
+        }
+    }
     let mut seen = std::collections::HashSet::new();
     u.retain(|t| seen.insert(t.clone()));
     u
@@ -348,7 +364,7 @@ fn check_list(items: &[T], tail: &Option<T>, index: usize) -> Vec<Violation> {
 
 pub fn run(ctx: &mut Ctx) {
     let quick = ctx.quick();
-    ctx.set("rule", json!("E3: (a) every ordered pair of the term universe (every literal kind, two variables and second constructions of them, [], proper / improper / nested lists, five compound kinds): LTerm == equals structural equality with variable identity, is symmetric, and equal terms hash identically under SipHash and under a hasher that records write boundaries; comparisons with Rust literals agree. (b) every element sequence of length 0..3 over 11 element values (incl. [], nested lists, an improper pair, a compound) with no tail and 4 improper tails: from_vec / from_array / collect / improper_from_vec / improper_from_array, iter / IntoIterator (fused), Index, IndexMut and iter_mut (right element, value semantics), head / tail, is_list / is_empty / is_improper, contains, extend, Display against the Vec model with the improper tail as final element. distinct_nontrivial = equal pairs of distinct constructions + lists."));
+    ctx.set("rule", json!("E3: (a) every ordered pair of the term universe (every literal kind, two variables and second constructions of them, [], proper / improper / nested lists, five compound kinds): LTerm == equals structural equality with variable identity, is symmetric, and equal terms hash identically under SipHash and under a hasher that records write boundaries; comparisons with Rust literals agree. (b) every element sequence of length 0..3 (thorough: 0..4) over 11 element values (incl. [], nested lists, an improper pair, a compound) with no tail and 4 improper tails: from_vec / from_array / collect / improper_from_vec / improper_from_array, iter / IntoIterator (fused), Index, IndexMut and iter_mut (right element, value semantics), head / tail, is_list / is_empty / is_improper, contains, extend, Display against the Vec model with the improper tail as final element. distinct_nontrivial = equal pairs of distinct constructions + lists."));
     let u = term_universe(quick);
     let rows: Vec<usize> = match &ctx.replay {
         Some(r) if r.family == "c21-eq" => vec![r.index],
@@ -370,7 +386,7 @@ pub fn run(ctx: &mut Ctx) {
     // lists
     let ev = elem_values();
     let mut lists: Vec<(Vec<T>, Option<T>)> = vec![];
-    for n in 0..=3 {
+    for n in 0..=(if quick { 3 } else { 4 }) {
         for items in crate::e4::product(&ev, n) {
             for t in tails() {
                 if n == 0 && t.is_some() && quick {
